@@ -65,7 +65,8 @@ def make_family_case(rng, n_children=1, n_variants=(6, 14), contig_len=(1500, 30
     kinds_hit = []
     for i in range(n):
         if all_triples:
-            gf, gm, gc0 = rng.choice(CONSISTENT + CONFLICT)
+            # every one of the 27 triples can occur; conflicts with probability conflict_prob
+            gf, gm, gc0 = rng.choice(CONFLICT) if rng.random() < conflict_prob else rng.choice(CONSISTENT)
         else:
             gf = rng.choices([0, 1, 2], parent_gt_weights)[0]
             gm = rng.choices([0, 1, 2], parent_gt_weights)[0]
